@@ -255,9 +255,9 @@ def _topsort_proxy(raw, self, args, kwargs):
     return proxy()
 
 
-def _cycle_reachable_from_outputs(c):
+def _cycle_reachable_from_outputs(c, start=None):
     ops = {l: tuple(g.operands) for l, g in c.gates.items()}
-    reach = _closure(ops, list(c.outputs))
+    reach = _closure(ops, list(c.outputs) if start is None else list(start))
     sub = {l: tuple(o for o in ops[l] if o in reach) for l in reach}
     return wf.has_cycle(sub)
 
@@ -269,7 +269,8 @@ def _pre_cycle(args, kwargs):
             for o in g.operands:
                 if o not in c.gates:
                     return None
-        return _cycle_reachable_from_outputs(c)
+        start = args[1] if len(args) > 1 else kwargs.get('start_gates')
+        return _cycle_reachable_from_outputs(c, start)
     except Exception:
         return None
 
